@@ -1,5 +1,6 @@
 /- Driver/Iff.lean — IFF-style chunk files with an ID3 chunk (AIFF, WAVE, DSDIFF): save, delete, walk -/
 import MutagenModel.Model.Container.Iff
+import MutagenModel.Model.Container.IffM
 import Driver.Util
 import Driver.FlacC
 namespace Driver
@@ -20,6 +21,36 @@ def padOfZ (a : Args) : PadZ :=
   | v => match v.toInt? with
     | some n => .callback fun _ _ => n
     | none => .default
+
+/-- the layout of a well-formed file (strict reader; the ID3 chunk is the first one the dialect's lookup stops at) -/
+def iffLayoutOf (d : Dialect) (f : Bytes) : Option Layout :=
+  match readFile d f with
+  | none => none
+  | some (name, cs) =>
+    let isId3 (c : Chunk) : Bool := match chunkId c.id with | some s => d.loadIds.contains s | none => false
+    let before := cs.takeWhile fun c => !isId3 c
+    match cs.drop before.length with
+    | [] => some ⟨name, before, none, []⟩
+    | c :: r => some ⟨name, before, some c, r⟩
+
+/-- `iffm fmt=… op=save|delete data=… [vmaj= frames= pad=] [B=] [fail=i:err] [short=i:k] [cap=n] [leak=n]`: the
+file-object programs of Model/Container/IffM.lean on a well-formed file, with the entry point's `convert_error` -/
+def iffmOp (a : Args) : String :=
+  match iffDialect (a.str "fmt") with
+  | none => "bad-op"
+  | some d =>
+    let f := a.bytes "data"
+    match iffLayoutOf d f with
+    | none => "err notimplemented"
+    | some L =>
+      if L.chunks.isEmpty then "err notimplemented" else
+      let e := envOf a
+      let s : FS := { data := f, pos := a.nat "pos" 0 }
+      let B := a.nat "B" 1048576
+      match a.str "op" with
+      | "save" => showResult (saveEntry d B L (a.nat "vmaj" 4) (a.bytes "frames") (padOfZ a) e s)
+      | "delete" => showResult (deleteEntry d B L e s)
+      | _ => "bad-op"
 
 def iffOp (a : Args) : String :=
   let ex (r : Except PyErr Bytes) : String :=
